@@ -59,6 +59,37 @@ static XClass classify_b(Big const& x, Big const& r, bool is_max)
     return K_OTHER;
 }
 
+// Massive-failure guard. A broken sqrt fails on (almost) every case, and every failure takes the slow
+// path (strings; a hang costs 2 s of CPU), which would turn a 2^32-case program into hours. Once a
+// program has recorded FAIL_CAP wrong results or HANG_CAP hangs in this worker, its remaining cells
+// are not executed: the program is marked not-complete and the outcome 'program_abandoned' is
+// recorded. The run has failed by then (the violations stay recorded). Rows are still counted
+// (vf::my_row is called for every row), so the row -> worker assignment of later programs is unchanged.
+constexpr uint64_t FAIL_CAP = 1u << 16, HANG_CAP = 4;
+static uint64_t g_fails = 0, g_hangs = 0;
+static bool g_abandoned = false;
+static bool begin_prog(std::string const& name, bool full)
+{
+    g_fails = g_hangs = 0;
+    g_abandoned = false;
+    return vf::begin(name, full);
+}
+static bool own_row()
+{
+    return vf::my_row() && !g_abandoned;
+}
+static void note_failure(int kind)
+{
+    if (vf::replaying() || g_abandoned) return;
+    if (kind == vf::HANG) ++g_hangs;
+    ++g_fails;
+    if (g_fails >= FAIL_CAP || g_hangs >= HANG_CAP) {
+        g_abandoned = true;
+        vf::g.cur->full_type = false;
+        vf::outcome("program_abandoned");
+    }
+}
+
 // reference integer square root, bit by bit (slow and obviously right)
 static Big ref_isqrt(Big const& x)
 {
@@ -154,6 +185,7 @@ struct elastic_of<cnl::elastic_integer<D, N>> {
 
 [[gnu::noinline]] static void hot_fail(u64 xx, bool is_max, vf::Outcome const& o, i128 got, u64 rlimit)
 {
+    note_failure(o.kind);
     u64 t = ref_isqrt(Big(xx)).to<u64>();
     const char* cls = xclass_name[classify_u(xx, t, is_max)];
     std::string id = vf::to_s(xx);
@@ -199,6 +231,7 @@ static bool replay_skips_row(u64 first, u64 last)
 template<class Call>
 inline void hot_case(HotCounts& hc, u64 xx, bool is_max, u64 rlimit, Call&& call)
 {
+    if (g_abandoned) return;
     if (vf::replaying() && !replay_selects(xx)) return;
     i128 got = 0;
     vf::Outcome o = vf::run([&] { got = call(); });
@@ -219,6 +252,7 @@ inline void hot_case(HotCounts& hc, u64 xx, bool is_max, u64 rlimit, Call&& call
 template<class T, class Call>
 void big_case(Big const& x, Big const& M, Big const* rlimit, Call&& call)
 {
+    if (g_abandoned) return;
     auto id = [&] { return x.str(); };
     if (vf::replaying() && !vf::case_selected(id())) return;
     T opnd = from_big<T>(x);
@@ -235,6 +269,7 @@ void big_case(Big const& x, Big const& M, Big const* rlimit, Call&& call)
         vf::outcome(std::string("ok_") + xclass_name[classify_b(x, r, is_max)]);
         return;
     }
+    note_failure(o.kind);
     Big t = ref_isqrt(x);
     const char* cls = xclass_name[classify_b(x, t, is_max)];
     if (!o.ok()) {
@@ -321,17 +356,17 @@ struct XSpace {
         Big lim = (M < S) ? M + one : S;  // phase 1: [0, lim)
         long const n1 = lim.to<long>();  // S <= 2^24
         for (long base = 0; base < n1; base += 4096) {
-            if (!vf::my_row()) continue;
+            if (!own_row()) continue;
             for (long v = base; v < base + 4096 && v < n1; ++v) cell(Big(v));
         }
         for (Big const& r : rs) {
-            if (!vf::my_row()) continue;
+            if (!own_row()) continue;
             Big sq = r * r;
             for (Big const& x : {sq - one, sq, sq + one, sq + r})
                 if (x <= M) cell(x);
         }
         for (Big const& x : xl) {
-            if (!vf::my_row()) continue;
+            if (!own_row()) continue;
             cell(x);
         }
     }
@@ -347,11 +382,11 @@ constexpr long WIN = VF_TIER ? 16384 : 4096;
 template<class T>
 [[gnu::noinline]] void prog_builtin_full(const char* tname)
 {
-    if (!vf::begin(std::string("sqrt_builtin<") + tname + ">", true)) return;
+    if (!begin_prog(std::string("sqrt_builtin<") + tname + ">", true)) return;
     constexpr u64 M = u64(std::numeric_limits<T>::max());
     HotCounts hc;
     for (u64 hi = 0; hi <= (M >> 16); ++hi) {
-        if (!vf::my_row()) continue;
+        if (!own_row()) continue;
         u64 const last = std::min<u64>(M, (hi << 16) | 0xFFFFu);
         if (replay_skips_row(hi << 16, last)) continue;
         for (u64 xx = hi << 16; xx <= last; ++xx) {
@@ -367,7 +402,7 @@ template<class T>
 template<class T>
 [[gnu::noinline]] void prog_builtin_32_reduced(const char* tname)
 {
-    if (!vf::begin(std::string("sqrt_builtin<") + tname + ">", false)) return;
+    if (!begin_prog(std::string("sqrt_builtin<") + tname + ">", false)) return;
     constexpr u64 M = u64(std::numeric_limits<T>::max());
     HotCounts hc;
     auto one = [&](u64 xx) {
@@ -375,18 +410,18 @@ template<class T>
         hot_case(hc, xx, xx == M, ~u64(0), [&]() -> i128 { return i128(cnl::sqrt(x)); });
     };
     for (u64 hi = 0; hi < 16; ++hi) {
-        if (!vf::my_row()) continue;
+        if (!own_row()) continue;
         for (u64 xx = hi << 16; xx < ((hi + 1) << 16); ++xx) one(xx);
     }
     u64 const rmax = ref_isqrt(Big(M)).to<u64>();
     for (u64 r = 1025; r <= 65535 && r <= rmax; ++r) {
-        if (!vf::my_row()) continue;
+        if (!own_row()) continue;
         for (u64 xx : {r * r - 1, r * r, r * r + 1, r * r + r})
             if (xx <= M) one(xx);
     }
     bool const pronic_max_emitted = rmax * rmax + rmax <= M;
     for (u64 xx = M - 3; xx <= M && xx >= M - 3; ++xx) {
-        if (!vf::my_row()) continue;
+        if (!own_row()) continue;
         bool dup = xx == rmax * rmax + 1 || xx == rmax * rmax || (pronic_max_emitted && xx == rmax * rmax + rmax) || xx == rmax * rmax - 1;
         if (!dup) one(xx);
     }
@@ -397,7 +432,7 @@ template<class T>
 template<class T>
 [[gnu::noinline]] void prog_lattice(std::string const& name, int dense_bits = DENSE_BITS, long win = WIN)
 {
-    if (!vf::begin(name, false)) return;
+    if (!begin_prog(name, false)) return;
     Big const M = Big::pow2(cnl::digits_v<T>) - Big(1);
     if (to_big(std::numeric_limits<T>::max()) != M)
         vf::violation("numeric_limits_max", "-", "numeric_limits<T>::max() = " + to_big(std::numeric_limits<T>::max()).str() + " but digits_v = " + std::to_string(cnl::digits_v<T>));
@@ -428,13 +463,13 @@ template<int D, class N>
     using E = cnl::elastic_integer<D, N>;
     using Rep = std::remove_cvref_t<decltype(cnl::_impl::to_rep(std::declval<E const&>()))>;
     using R = std::remove_cvref_t<decltype(cnl::sqrt(std::declval<E const&>()))>;
-    if (!vf::begin("sqrt_elastic<" + elastic_name<D, N>(nname) + ">", true)) return;
+    if (!begin_prog("sqrt_elastic<" + elastic_name<D, N>(nname) + ">", true)) return;
     check_elastic_result_type<R>(D);
     constexpr u64 M = (u64(1) << D) - 1;
     constexpr u64 rlimit = (u64(1) << ((D + 1) / 2)) - 1;
     HotCounts hc;
     for (u64 hi = 0; hi <= (M >> 8); ++hi) {
-        if (!vf::my_row()) continue;
+        if (!own_row()) continue;
         u64 const last = std::min<u64>(M, (hi << 8) | 0xFFu);
         if (replay_skips_row(hi << 8, last)) continue;
         for (u64 xx = hi << 8; xx <= last; ++xx) {
@@ -452,7 +487,7 @@ template<int D, class N>
 {
     using E = cnl::elastic_integer<D, N>;
     using R = std::remove_cvref_t<decltype(cnl::sqrt(std::declval<E const&>()))>;
-    if (!vf::begin("sqrt_elastic<" + elastic_name<D, N>(nname) + ">", false)) return;
+    if (!begin_prog("sqrt_elastic<" + elastic_name<D, N>(nname) + ">", false)) return;
     check_elastic_result_type<R>(D);
     Big const M = Big::pow2(D) - Big(1);
     Big const rlimit = Big::pow2((D + 1) / 2) - Big(1);
@@ -482,12 +517,12 @@ template<class Rep, int E, int Radix = 2>
     static_assert(E % 2 == 0 && sizeof(Rep) <= 4);
     using S = cnl::scaled_integer<Rep, cnl::power<E, Radix>>;
     using R = std::remove_cvref_t<decltype(cnl::sqrt(std::declval<S const&>()))>;
-    if (!vf::begin(scaled_name(vf::tn<Rep>(), E, Radix), true)) return;
+    if (!begin_prog(scaled_name(vf::tn<Rep>(), E, Radix), true)) return;
     check_scaled_result_type<R>(E, Radix);
     constexpr u64 M = u64(std::numeric_limits<Rep>::max());
     HotCounts hc;
     for (u64 hi = 0; hi <= (M >> 8); ++hi) {
-        if (!vf::my_row()) continue;
+        if (!own_row()) continue;
         u64 const last = std::min<u64>(M, (hi << 8) | 0xFFu);
         if (replay_skips_row(hi << 8, last)) continue;
         for (u64 xx = hi << 8; xx <= last; ++xx) {
@@ -505,7 +540,7 @@ template<class Rep, int E, int Radix = 2>
     static_assert(E % 2 == 0);
     using S = cnl::scaled_integer<Rep, cnl::power<E, Radix>>;
     using R = std::remove_cvref_t<decltype(cnl::sqrt(std::declval<S const&>()))>;
-    if (!vf::begin(scaled_name(repname, E, Radix), false)) return;
+    if (!begin_prog(scaled_name(repname, E, Radix), false)) return;
     check_scaled_result_type<R>(E, Radix);
     Big const M = Big::pow2(cnl::digits_v<Rep>) - Big(1);
     XSpace const sp(M, dense_bits, win);
@@ -519,7 +554,7 @@ template<int D, class N, int E>
     using El = cnl::elastic_integer<D, N>;
     using S = cnl::scaled_integer<El, cnl::power<E>>;
     using R = std::remove_cvref_t<decltype(cnl::sqrt(std::declval<S const&>()))>;
-    if (!vf::begin(scaled_name(elastic_name<D, N>(nname), E, 2), full)) return;
+    if (!begin_prog(scaled_name(elastic_name<D, N>(nname), E, 2), full)) return;
     check_scaled_result_type<R>(E, 2);
     if constexpr (scale_of<R>::ok) check_elastic_result_type<typename scale_of<R>::rep>(D);
     Big const M = Big::pow2(D) - Big(1);
